@@ -264,7 +264,7 @@ def run(pid, tier):
                 raise C.Inconclusive("the specification StoreMC violates its own theorem %s: specification defect\n%s" % (inv, r["out"][-2500:]))
             if "Model checking completed. No error has been found" not in r["out"]:
                 raise C.Inconclusive("TLC failed on StoreMC:\n" + r["out"][-3000:])
-        if rej:
+        if rej and nviol == 0:
             raise C.Inconclusive("histories rejected by TraceStore (recorder mismatch): %s" % rej[:3])
 
         opcount = collections.Counter(e["op"] for o in outs for e in o["events"])
